@@ -19,6 +19,7 @@ func main() {
 		fmt.Fprintln(os.Stderr, "unknown command", os.Args[1])
 		os.Exit(2)
 	}
+	startStallDetector()
 	if err := f(os.Args[2:]); err != nil {
 		fmt.Fprintln(os.Stderr, "harness error:", err)
 		os.Exit(3)
